@@ -30,6 +30,7 @@ import (
 	"pgregory.net/rapid"
 	"verifharness/internal/ev"
 	"verifharness/internal/gen"
+	"verifharness/internal/kf"
 	"verifharness/internal/rt"
 )
 
@@ -1028,6 +1029,270 @@ func TestC30(t *testing.T) {
 		rec.LabelIf(sideRight, "side_effect_right_of_absorbing_constant")
 		if rec.WantSample("C30_side_effects_" + f.fam) {
 			rec.Sample("C30_side_effects_"+f.fam, map[string]string{"lit": litSrc, "result(r n x i)": want})
+		}
+	})
+
+	// rewrites: the other places where the folder may drop or reorder the
+	// evaluation of operands: `in` lists and `is .. or is ..` chains (folded
+	// to `in`) with a constant left side, `isnt .. and isnt ..`, ?: with a
+	// constant condition, and / or with constant identity or absorbing
+	// prefix, not-inversion, constant concatenation around an operand,
+	// reassociated + chains. Operands: constants (literal / parameter /
+	// local per shape), a plain variable, operands with a side effect
+	// (counting block call, assignment, increment) and operands that throw
+	// (w % z with z = 0, s + 1 with s = "x", Object().q), before and after
+	// matching / non-matching constants. `try r = (E) catch r = "EXC"` keeps
+	// the side-effect record when E throws; (r, calls, x, i) must agree.
+	kfIn, kfInOK := kf.Known("C30", "in-empty-list-drops-left-side")
+	rt.Check(t, rec, "rewrites", 4000, 80000, func(t *rapid.T) {
+		var consts []string
+		slot := func(text string) string {
+			consts = append(consts, text)
+			return fmt.Sprintf("\x00%d\x00", len(consts)-1)
+		}
+		k := 0
+		lab := func(s string) string { k++; return fmt.Sprint(s, k) }
+		usedX, usedI := false, false
+		nSide, nThrow := 0, 0
+		num := func() string { return gen.Pick(t, lab("num"), []string{"5", "6", "7"}) }
+		side := func() string { // value is a number
+			nSide++
+			kind := gen.Weighted(t, lab("sk"), []int{50, 25, 25})
+			if kind == 1 && usedX || kind == 2 && usedI {
+				kind = 0
+			}
+			switch kind {
+			case 1:
+				usedX = true
+				return "(x = " + num() + ")"
+			case 2:
+				usedI = true
+				return "(" + gen.Pick(t, lab("inc"), []string{"i++", "++i", "i--"}) + ")"
+			}
+			return "f()"
+		}
+		thrower := func() string {
+			nThrow++
+			return gen.Pick(t, lab("th"), []string{"(w % z)", "(s + 1)", "Object().q"})
+		}
+		// operand of an `in` list / comparison
+		noThrow := false // and / or chains: losing the exception of a pure operand is documented
+		elem := func() string {
+			w := []int{40, 25, 15, 20}
+			if noThrow {
+				w[2] = 0
+			}
+			switch gen.Weighted(t, lab("ek"), w) {
+			case 0:
+				return slot(num())
+			case 1:
+				return side()
+			case 2:
+				return thrower()
+			default:
+				return "w"
+			}
+		}
+		left := func() string {
+			switch gen.Weighted(t, lab("lk"), []int{60, 20, 20}) {
+			case 0:
+				return slot(num())
+			case 1:
+				return "w"
+			default:
+				return side()
+			}
+		}
+		var expr, form string
+		emptyIn := false
+		switch gen.Uniform(t, "form", 9) {
+		case 0:
+			form = "in"
+			n := gen.Weighted(t, "nin", []int{4, 10, 30, 30, 26})
+			var es []string
+			l := left()
+			for j := 0; j < n; j++ {
+				es = append(es, elem())
+			}
+			emptyIn = n == 0 && !strings.HasPrefix(l, "\x00") && l != "w"
+			expr = l + " in (" + strings.Join(es, ", ") + ")"
+		case 1:
+			form = "is_or_chain"
+			noThrow = true
+			l := slot(num())
+			if rapid.Bool().Draw(t, "lw") {
+				l = "w"
+			}
+			n := 2 + gen.Uniform(t, "nor", 3)
+			var es []string
+			for j := 0; j < n; j++ {
+				es = append(es, l+" is "+elem())
+			}
+			expr = strings.Join(es, " or ")
+		case 2:
+			form = "isnt_and_chain"
+			noThrow = true
+			l := slot(num())
+			if rapid.Bool().Draw(t, "lw") {
+				l = "w"
+			}
+			n := 2 + gen.Uniform(t, "nand", 3)
+			var es []string
+			for j := 0; j < n; j++ {
+				es = append(es, l+" isnt "+elem())
+			}
+			expr = strings.Join(es, " and ")
+		case 3:
+			form = "ternary_constant_condition"
+			c := slot(gen.Pick(t, "tc", []string{"true", "false"}))
+			if gen.Chance(t, "tcmp", 30) {
+				c = "(" + slot(num()) + " is " + slot(num()) + ")"
+			}
+			expr = c + " ? " + elem() + " : " + elem()
+		case 4:
+			form = "andor_constant_operands"
+			op := gen.Pick(t, "aop", []string{"and", "or"})
+			n := 2 + gen.Uniform(t, "nao", 3)
+			var es []string
+			for j := 0; j < n; j++ {
+				// no throwing operands here: losing the exception of a pure
+				// operand next to an absorbing constant is documented
+				switch gen.Weighted(t, lab("ao"), []int{45, 55, 0}) {
+				case 0:
+					es = append(es, slot(gen.Pick(t, lab("b"), []string{"true", "false"})))
+				case 1:
+					es = append(es, "("+side()+" < "+slot(num())+")")
+				default:
+					es = append(es, "("+thrower()+" is 1)")
+				}
+			}
+			expr = strings.Join(es, " "+op+" ")
+		case 5:
+			form = "not_inversion"
+			cmp := gen.Pick(t, "cmp", []string{"<", "<=", ">", ">=", "is", "isnt"})
+			a, b := elem(), slot(num())
+			if rapid.Bool().Draw(t, "swap") {
+				a, b = b, a
+			}
+			expr = "not (" + a + " " + cmp + " " + b + ")"
+		case 6:
+			form = "cat_constants_around_operand"
+			n := 3 + gen.Uniform(t, "ncat", 3)
+			var es []string
+			for j := 0; j < n; j++ {
+				if gen.Chance(t, lab("cs"), 60) {
+					es = append(es, slot(gen.Pick(t, lab("s"), []string{`"a"`, `"b"`, `""`, "1", "2.5"})))
+				} else {
+					es = append(es, elem())
+				}
+			}
+			expr = strings.Join(es, " $ ")
+		case 7:
+			form = "add_chain_reassociated"
+			n := 3 + gen.Uniform(t, "nadd", 3)
+			var sb strings.Builder
+			for j := 0; j < n; j++ {
+				if j > 0 {
+					sb.WriteString(gen.Pick(t, lab("pm"), []string{" + ", " - "}))
+				}
+				if gen.Chance(t, lab("ac"), 55) {
+					sb.WriteString(slot(gen.Pick(t, lab("an"), []string{"1", "2", "3", "10"})))
+				} else {
+					sb.WriteString(elem())
+				}
+			}
+			expr = sb.String()
+		default:
+			form = "unary_and_range"
+			// w > a and w < b with a side-effect conjunct, unary minus on constants
+			expr = "w > " + slot(num()) + " and w < " + slot(num()) + " and (" + side() + " is " + slot(num()) + ")"
+			if rapid.Bool().Draw(t, "neg") {
+				expr = "- " + slot(num()) + " + " + elem() + " + (- " + slot(num()) + ")"
+			}
+		}
+		if emptyIn && kfInOK {
+			rec.Case(false, "emptyin")
+			rec.Excluded("in-empty-list-drops-left-side")
+			rec.Known(kfIn.What)
+			return
+		}
+		rv := num()
+		wv := num()
+		lit := make([]bool, len(consts))
+		for i := range lit {
+			lit[i] = rapid.Bool().Draw(t, fmt.Sprint("rlit", i))
+		}
+		build := func(mode string) (string, []core.Value) {
+			params := []string{"w", "z", "s"}
+			args := []core.Value{compile.Constant(wv), core.Zero, core.SuStr("x")}
+			var locals strings.Builder
+			body := expr
+			for i, c := range consts {
+				ph := fmt.Sprintf("\x00%d\x00", i)
+				switch {
+				case mode == "lit" || mode == "mix" && lit[i]:
+					body = strings.ReplaceAll(body, ph, c)
+				case mode == "loc":
+					fmt.Fprintf(&locals, "v%d = %s; ", i, c)
+					body = strings.ReplaceAll(body, ph, fmt.Sprint("v", i))
+				default:
+					params = append(params, fmt.Sprint("p", i))
+					args = append(args, compile.Constant(c))
+					body = strings.ReplaceAll(body, ph, fmt.Sprint("p", i))
+				}
+			}
+			src := "function (" + strings.Join(params, ", ") + ") {\n" +
+				"\tn = 0; x = 9; x = 8; i = 0; r = 0; r = 1; " + locals.String() + "\n" +
+				"\tf = { n++; " + rv + " };\n" +
+				"\ttry\n\t\tr = (" + body + ")\n\tcatch\n\t\tr = \"EXC\"\n" +
+				"\tObject(r, n, x, i)\n}"
+			return src, args
+		}
+		describe := func(r realRes) string {
+			if r.failed() {
+				stage := "run"
+				if r.compile {
+					stage = "compile"
+				}
+				return "FAIL(" + stage + ") " + errText(r.err)
+			}
+			ob, ok := r.v.(*core.SuObject)
+			if !ok || ob.ListSize() != 4 {
+				return "?" + r.String()
+			}
+			var parts []string
+			for k := 0; k < 4; k++ {
+				v := ob.ListGet(k)
+				parts = append(parts, v.Type().String()+":"+safeString(v))
+			}
+			return strings.Join(parts, " ")
+		}
+		runSrc, runArgs := build("run")
+		run := compileAndCall(runSrc, runArgs...)
+		if run.failed() {
+			t.Fatalf("run-time version fails outside the try: %v\n%s", run, runSrc)
+		}
+		want := describe(run)
+		rewrote := false
+		for _, mode := range []string{"lit", "mix", "loc"} {
+			src, args := build(mode)
+			got := describe(compileAndCall(src, args...))
+			if got != want {
+				t.Fatalf("%s version differs from the run-time version in value, exception or side effects (r, calls of f, x, i)\n run: %s\n %s: %s\n run src:\n%s\n %s src:\n%s", mode, want, mode, got, runSrc, mode, src)
+			}
+			if astOf(src, false) != astOf(src, true) {
+				rewrote = true
+			}
+		}
+		litSrc, _ := build("lit")
+		rec.Case(rewrote && (nSide > 0 || nThrow > 0), "RW:"+litSrc)
+		rec.Label("rewrites_" + form)
+		rec.LabelIf(nSide > 0, "rewrites_with_side_effect_operand")
+		rec.LabelIf(nThrow > 0, "rewrites_with_throwing_operand")
+		rec.LabelIf(strings.HasPrefix(want, "String:\"EXC\""), "rewrites_result_exception")
+		rec.LabelIf(rewrote, "rewrites_folder_rewrote")
+		if rewrote && rec.WantSample("C30_rewrites_"+form) {
+			rec.Sample("C30_rewrites_"+form, map[string]string{"lit": litSrc, "result(r n x i)": want})
 		}
 	})
 }
